@@ -186,3 +186,69 @@ def c11_3(cx):
     cx.flow(pc, cx.arg(ex, 0), [r"^std::mem::take(::<[^()]*>)?\(\$1\.accumulated\)$"], [], "this execution's accumulated map moves into the new revisions", ex)
     cq = cx.fn(r"^function::execute::complete_cycle_query$")
     cx.some_calls(cq, r"InputAccumulatedValues::is_empty$", 1, "cycle assertion on accumulated inputs")
+
+
+@ob("C10.5", ["C10"], "a query that may specify on a struct created by one of its callers (any frame below the top of the stack) makes the specified value depend on which caller happened to be running: not path-independent", kind="FLOW (ownership test)")
+def c10_5(cx):
+    """is_tracked_struct_of_active_query(entity) = the TOP frame of the query stack exists and its tracked_struct_ids().is_active(entity); IdentityMap::is_active finds the entry with the entity's id and ingredient and returns its `active` flag (an inactive seed from the previous execution does not count)."""
+    b = cx.fn(r"^zalsa_local::ZalsaLocal::is_tracked_struct_of_active_query$")
+    cb = cx.closure_passed_to(b, r"with_query_stack_unchecked(_mut)?$")
+    o = cb.origin_local(0)
+    cx.flow(cb, o, [r"^std::option::Option::<T>::is_some_and\(core::slice::<impl \[T\]>::(last_mut|last)\(\$2\), closure:.*\[\$1\.0\]\)$"], [r"Iterator>::any\(", r"::first(_mut)?\(", r"Iterator>::rev\("], "only the top frame of the query stack is consulted")
+    inner = cx.fn(r"^zalsa_local::ZalsaLocal::is_tracked_struct_of_active_query::\{closure#0\}::\{closure#0\}$")
+    cx.flow(inner, inner.origin_local(0), [r"^tracked_struct::IdentityMap::is_active\(active_query::ActiveQuery::tracked_struct_ids\(\$2\), \$1\.0\)$"], [], "the frame's own identity map is asked about the entity")
+    ia = cx.fn(r"^tracked_struct::IdentityMap::is_active$")
+    cx.flow(ia, ia.origin_local(0), [r"^std::option::Option::<T>::is_some_and\(<Iter as std::iter::Iterator>::find\(hashbrown::HashTable::<T, A>::iter\(\$1\.table\), closure:.*is_active::\{closure#0\}\[\$2\]\), closure:.*is_active::\{closure#1\}\[\]\)$"], [r"Option::<T>::is_some\("], "is_active = the matching entry exists AND is active")
+    c1 = cx.fn(r"^tracked_struct::IdentityMap::is_active::\{closure#1\}$")
+    cx.flow(c1, c1.origin_local(0), [r"^\$2\.active$"], [r"^const:1$"], "an entry seeded from the previous execution but not recreated does not count")
+    c0 = cx.fn(r"^tracked_struct::IdentityMap::is_active::\{closure#0\}$")
+    eqs = cx.some_calls(c0, r"^std::cmp::PartialEq::eq$", 2, "id / ingredient comparisons")
+    pairs = sorted((cx.arg(s, 0), cx.arg(s, 1)) for s in eqs)
+    cx.check(pairs == sorted([("$2.id", "key::DatabaseKeyIndex::key_index($1.0)"), ("tracked_struct::Identity::ingredient_index($2.identity)", "key::DatabaseKeyIndex::ingredient_index($1.0)")]), "an entry matches only on the entity's id and ingredient", eqs[0], {"pairs": pairs}, key="match-pairs")
+    for site, kind, node in value_defs(c0, 0):
+        oo = c0._origin_def(site, kind, node, 0, None, ())
+        if oo == "const:0":
+            continue
+        cx.only_if(c0, site, CallIs(r"^std::cmp::PartialEq::eq$", True, [r"^\$2\.id$"], desc="entry.id == key.key_index()"), "a match requires the id to be equal")
+        cx.flow(c0, oo, [r"^<IngredientIndex as std::cmp::PartialEq>::eq\(tracked_struct::Identity::ingredient_index\(\$2\.identity\), key::DatabaseKeyIndex::ingredient_index\(\$1\.0\)\)$"], [r"^const:1$"], "and the ingredient to be equal", site)
+
+
+@ob("C10.6", ["C10", "C06"], "a green creator re-specifies nothing: if its specified values are not re-validated with it, the next read of the specified function falls through to the function body and returns the computed instead of the specified value", kind="MUSTCALL (skipped only if)")
+def c10_6(cx):
+    """validate_specified_value returns without mark_as_verified only when the memo slot is empty; on every other normal path it (asserts origin == Assigned(executor) and) calls header.mark_as_verified(zalsa, database_key_index) for the memo read from the slot."""
+    v = cx.fn(r"^function::specify::validate_specified_value$")
+    mk = cx.one_call(v, r"MemoHeader::mark_as_verified$", "mark_as_verified in validate_specified_value")
+    a = cx.args(mk)
+    cx.flow(v, a[0], [r"^function::memo::ErasedMemo::<'memo>::header\(table::memo::MemoSlot::<'a>::get_erased\(\$4\)@Some\.0\)$"], [], "the memo validated is the one in the slot", mk)
+    cx.check(a[1] == "$1" and a[2] == "$3", "validated for the specified key", mk, {"args": a[1:]}, key="validate-key")
+    cx.skipped_only_if(v, mk, VariantIn(r"MemoSlot::<'a>::get_erased\(\$4\)$", {"None"}, desc="the slot holds no memo"), "validation is skipped only if there is no memo to validate")
+
+
+@ob("C10.7", ["C10", "C01"], "a specified value is not a function of the specified function's own inputs; when the creator stops specifying and the body's value replaces it, a memo stamped only from those inputs looks unchanged to every query that read the specified value (finding F4)", kind="FLOW+ONLYIF (skipped only if)")
+def c10_7(cx):
+    """execute: when the old memo's origin is Assigned and the new value is not values_equal to the old one, completed_query.revisions.changed_at := zalsa.current_revision() before the memo is inserted; the stamp is skipped only if the old memo is not Assigned or the values are equal; the closure compares the OLD value with the NEW value through C::values_equal."""
+    e = cx.fn(r"^function::execute::<impl function::IngredientImpl<C>>::execute$")
+    st = [x for x in cx.stores(e) if x[1].endswith(".revisions.changed_at")]
+    ins = cx.one_call(e, r"^function::IngredientImpl::<C>::insert_memo$", "insert_memo in execute")
+    cx.check(len(st) >= 1, "execute stamps a computed value that replaces a specified one as changed now", ins, key="stamp-present")
+    if not st:
+        return
+    origin = r"MemoHeader::origin\(\$4@Some\.0\.header\)$"
+    assigned = VariantIn(origin, {"Assigned"}, desc="old memo was specified (origin Assigned)")
+    not_assigned = VariantIn(origin, {"Derived", "DerivedUntracked"}, desc="old memo was computed")
+    no_old = VariantIn(r"^\$4$", {"None"}, desc="no old memo")
+    eq = CallIs(r"^std::option::Option::<T>::is_some_and$", True, [r"^function::memo::Memo::<C>::value\(\$4@Some\.0\)$"], desc="old value values_equal new value")
+    for s, po, vo in st:
+        cx.flow(e, vo, [r"^zalsa::Zalsa::current_revision\(function::sync::ClaimGuard::<'me>::zalsa\(\$3\)\)$"], [r"^const:", r"Revision::start"], "changed_at := current revision", s)
+        cx.check(e.reaches(s, ins) and not e.reaches(ins, s), "the stamp is applied before the memo is stored", s, key="stamp-before-insert")
+        with cx.only("C03"):
+            cx.only_if(e, s, assigned, "the stamp is forced only when a specified value is being replaced (precision)")
+        cx.skipped_only_if(e, s, [not_assigned, no_old, eq], "the stamp is skipped only if there was no specified old value or the values are equal", exits=[ins.bb])
+        bk = cx.one_call(e, r"backdate_if_appropriate$", "backdate in execute")
+        cx.check(e.reaches(bk, s) and not e.reaches(s, bk), "the stamp is applied after backdating (which it must override)", s, key="stamp-after-backdate")
+    cb = [c for _, c in cx.facts.closures_of(e) if c.calls(r"Configuration::values_equal$")]
+    cx.sites(cb, 1, "values_equal closure in execute")
+    for c in cb:
+        ve = cx.one_call(c, r"Configuration::values_equal$", "values_equal")
+        a = cx.args(ve)
+        cx.check(a[0] == "$2" and re.search(r"^\$1\.0", a[1]) is not None, "the comparison is between the old memo's value and the new value", ve, {"args": a}, key="cmp-args")
